@@ -457,7 +457,8 @@ def run(ctx):
                            "harness/src/bin/c04.rs + c04_util.rs (generator, canonical printer, FNV digest of long values)",
                            "C15 for Key::compare = value order of the oracle's key type"]
     return ctx.finish("proof", cov,
-                      assumptions=["reads on a tree satisfying BTreeInv and the modelled insert/delete/pop are proved; the remaining writers (get_mut, entry, insert_reserve, "
-                                   "retain*, extract*) and the tie model<->code are validated per run against the specification",
+                      assumptions=["proved for the logical tree model: reads, insert, delete, pops, get_mut/entry/insert_reserve, retain*, extract* consumed from one end "
+                                   "(next() only or next_back() only); extract* with mixed next()/next_back() consumption and the tie model<->code are validated per run "
+                                   "(S2 shape correspondence incl. the extract-sweep programs, S3 specification oracle)",
                                    "keys compare as Inst.key_cmp (u64 numeric, &[u8]/&str bytewise)"],
                       s2_ok=s2_ok, s2_detail=detail)
